@@ -1087,6 +1087,26 @@ def run(ctx: Ctx):
                      ".strings; element_classes={NavigableString: Sub} hides parsed text from ordinary elements (design-time note)")
 
 
+def pretty(reply: str) -> str:
+    """canonical reply (code points) -> readable ascii()"""
+    def one(t):
+        if t == "e":
+            return "''"
+        try:
+            return ascii("".join(chr(int(x)) for x in t.split(",")))
+        except ValueError:
+            return t
+    if reply.startswith("[") and reply.endswith("]"):
+        return "[" + ", ".join(one(t) for t in reply[1:-1].split(";") if t) + "]"
+    if ":" in reply and reply.split(":", 1)[0].isdigit():
+        code, t = reply.split(":", 1)
+        names = E()["names"]
+        code = int(code)
+        nm = names[code] if code < len(KNOWN) else (names[len(KNOWN) + code - 100] if 0 <= code - 100 < len(names) - len(KNOWN) else str(code))
+        return f"{nm}({one(t)})"
+    return one(reply) if reply and (reply[0].isdigit() or reply == "e") else reply
+
+
 def replay(path):
     E()
     v = json.load(open(path))
@@ -1101,8 +1121,8 @@ def replay(path):
         real, want, ident = run_query(n, q)
         print("tree:", ascii(soup.decode()))
         print("receiver path:", list(target), "query:", c["query"])
-        print("implementation:", real)
-        print("property demands:", want, "" if ident else "(and the very string objects of the tree)")
+        print("implementation:", pretty(real))
+        print("property demands:", pretty(want), "" if ident else "(and the very string objects of the tree)")
         return 0 if (real == want and ident) else 1
     if c.get("op") == "parse-classes":
         soup, sc = build(c["recipe"])
@@ -1113,5 +1133,28 @@ def replay(path):
         print("implementation:", got)
         print("property demands:", want)
         return 0 if got == want else 1
+    if c.get("op") == "interesting":
+        e = E()
+        kwargs, sc = config_containers(c["config"])
+        soup = e["BeautifulSoup"]("", "html.parser", **kwargs)
+        t = soup.new_tag(c["name"])
+        got = sorted(k.__name__ for k in t.interesting_string_types)
+        want = sorted(expected_interesting(sc, c["name"])[1])
+        print(f"new_tag({c['name']!r}) with string_containers config {c['config']!r}")
+        print("implementation: interesting_string_types =", got)
+        print("property demands:", want)
+        return 0 if got == want else 1
+    if c.get("op") == "string_container":
+        e = E()
+        cl = e["cls"]
+        kwargs, sc = config_containers(c["config"])
+        ec = c["element_classes"]
+        soup = e["BeautifulSoup"]("", "html.parser", element_classes={cl[a]: cl[b] for a, b in ec.items()}, **kwargs)
+        soup.string_container_stack = [soup.new_tag(c["top"])] if c["top"] is not None else []
+        got = soup.string_container(None if c["base"] is None else cl[c["base"]]).__name__
+        print(f"string_container({c['base']}) inside <{c['top']}> with config {c['config']!r}, element_classes {ec}")
+        print("implementation:", got)
+        print("property demands / model:", v.get("expected") or v.get("model_reply"))
+        return 0 if got == v.get("expected") else 1
     print(json.dumps(v, indent=1))
     return 1
